@@ -15,8 +15,7 @@ def run(ctx):
     return {
         "known": known_witnesses(ctx, "C08"),
         "corr_diffs": corr, "violations": violations, "component": "bcPass (NucsModel/Engine/Core.lean) vs bound_consistency_algorithm",
-        "partial": ["(c) greatest common fixpoint for exact constraints is stated (C08_greatest_full), not proved yet",
-                    "TrigOk is proved for the algorithms listed in NucsProofs/Engine/C08Local.lean (C08_trig_unproved lists the rest)"],
-        "hypotheses": ["C08_pass assumes ProbOk: every posted algorithm has proved local contracts (provenAlgs); for alldifferent/gcc/others not yet proved the conclusion is conditional on their stated contracts"],
+        "partial": ["for no_sub_cycle only the instantiated form of trigger sufficiency holds (TrigOkP); the full statement is false for the code: known finding K3"],
+        "hypotheses": ["C08_pass assumes ProbOk (posted within contract); all 21 algorithms are in provenAlgs; C08_greatest additionally needs Exact, which is not proved for alldifferent and gcc"],
         "assumptions": ["interpreted mode for step-level interposition; compiled mode is compared on whole runs (C15)"],
     }
